@@ -1,4 +1,4 @@
 From Coq Require Import ExtrOcamlBasic.
-From ChibiV Require Import Common.ExtractBase C14.Spec C14.Load C14.Env C14.SynClo C14.IdEq C14.Importers.
+From ChibiV Require Import Common.ExtractBase C14.Spec C14.Load C14.Env C14.SynClo C14.IdEq C14.Importers C14.ExportAll.
 Extraction "model.ml" ext_base denote program_origin lib_origin world_of last_binding origin_eqb run_history load_module init_state
-  env_import env_cell empty_frame closed_probe def_loc local_loc stride program_env literal_probe identifier_eq same_binding run boot table_state.
+  env_import env_cell empty_frame closed_probe def_loc local_loc stride program_env literal_probe identifier_eq same_binding run boot table_state env_exports eval_body.
